@@ -427,6 +427,18 @@ def c14(ctx):
                     want = 1 if status == OK else -1
                     ok = cval(rv) == OK and len(sts) == 1 and sts[0]['loc'] == ('S', 'hold_exit_status') and cval(sts[0]['val']) == want
                     ctx.check('spurious', ok, site, 'a release request during a hold must only record status %d (returns %s, stores %s)' % (want, rv, _eff(sts)))
+    # ... and leaves the caller's mutex as it found it (a request that keeps the lock has an effect: nothing runs any more)
+    for flag in (0, 1):
+        def setup_m(s, flag=flag):
+            s.pnull['MUTEX'] = False
+            s.mem[('S', 'hold_state_flag')] = Lin.c(flag)
+        for s, rv in m.run('cat_hold_exit', [SELF, Lin.c(OK)], setup=setup_m):
+            for seq in trace_paths(s.trace, keep=lambda e: e['k'] in ('lock', 'unlock')):
+                taken = [e for e in seq if e['k'] == 'lock' and e['ok']]
+                given = [e for e in seq if e['k'] == 'unlock']
+                ctx.check('spurious', len(taken) == len(given), ctx.site('cat_hold_exit', m.fn_line('cat_hold_exit')),
+                          'a release request %s a hold returns with the mutex %s (locks taken %d, unlocks %d)'
+                          % ('during' if flag else 'outside', 'still held' if len(taken) > len(given) else 'released twice', len(taken), len(given)))
     # events keep flowing: the event machine never branches on the hold flag except to record a release
     ex2, ts2 = transitions(ctx, 'evt')
     for t in ts2:
@@ -435,6 +447,21 @@ def c14(ctx):
                 sts = [x for x in t.events if x['k'] == 'st' and x['fn'] == e['fn']]
                 ctx.check('events-continue', all(x['loc'] == ('S', 'hold_exit_status') for x in sts) and e['fn'] != None, t.site(e),
                           'the event machine reads the hold flag in %s' % e['fn'])
+        # a release recorded by the event machine comes from a handler that asked for it, with that status
+        rel = [x for x in t.stores(own_only=False) if x['loc'] == ('S', 'hold_exit_status')]
+        if rel:
+            cbs = [x for x in t.evs('cb') if x['kind'].startswith('cmd.')]
+            HOK, HERR = E['CAT_RETURN_STATE_HOLD_EXIT_OK'], E['CAT_RETURN_STATE_HOLD_EXIT_ERROR']
+            for x in rel:
+                want = None
+                for c in cbs:
+                    if t.raw.facts.eq(c['ret'], HOK) is True:
+                        want = 1
+                    elif t.raw.facts.eq(c['ret'], HERR) is True:
+                        want = -1
+                ctx.check('release-once', want is not None and cval(x['val']) == want, t.site(x),
+                          'the event machine records a release (status %s) on a step whose handler did not return the matching HOLD_EXIT code (handler results %s)'
+                          % (x['val'], [str(c['ret']) for c in cbs]))
         # ... and never answers for the held command: the result code and the way out of HOLD belong
         # to the command machine's release step alone
         acks = t.acks()
@@ -562,6 +589,7 @@ def _c15_cmd(ctx, ex, ts):
     E = m.prog.enums
     OK, BUSY = E['CAT_STATUS_OK'], E['CAT_STATUS_BUSY']
     # (a) the command-machine part of an OK return is a reading handler that found no byte and changed nothing
+    waits = {}
     for t in ts:
         rv = t.ret
         may_ok = (cval(rv) == OK) or (cval(rv) is None and is_lin(rv) and t.raw.facts.eq(rv, OK) is not False)
@@ -571,6 +599,15 @@ def _c15_cmd(ctx, ex, ts):
         if cval(rv) == OK:
             ctx.check('ok-means-quiescent', stutter and not effects, t.site(),
                       'cat_service returns OK from %s although the step %s' % (short(t.frm), 'made progress: %s' % _eff(effects) if effects else 'did not wait for input'))
+        # ... and the other way round: a step that only found the input dry and changed nothing has nothing
+        # left to do: it must be able to report OK (with the event machine idle), or a caller polling until OK spins for ever
+        # (the verdict of the event machine is folded in afterwards and forks the step: look at the whole group)
+        if stutter and not effects and t.to == t.frm:
+            g = waits.setdefault((t.t['from_key'], t.t.get('env')), [t, False])
+            g[1] = g[1] or may_ok
+    for (fk, env), (t, any_ok) in waits.items():
+        ctx.check('reaches-ok', any_ok, t.site(),
+                  'waiting for input in %s (read refused, nothing changed) cat_service cannot return OK' % short(t.frm))
 
 
 def _c15_evt(ctx, m, exu, tsu, cap):
